@@ -23,8 +23,11 @@ def hash160(b):
     return ripemd160(sha256(b))
 
 
+_HMAC_NEW = _hmac.new      # saved: the PRF seam of vf/answers.py temporarily replaces hmac.new for the code under test
+
+
 def hmac_sha512(key, msg):
-    return _hmac.new(key, msg, hashlib.sha512).digest()
+    return _HMAC_NEW(key, msg, hashlib.sha512).digest()
 
 
 # ----------------------------------------------------------------------------- Base58
